@@ -58,12 +58,20 @@ def _kind_walk(fn, start_bb):
 def _consumers(fn, local, start_bb):
     """how is the Result held in `local` (defined by the call ending start_bb) consumed?"""
     uses = []
+    aliases = {local}
+    # references to the result (`r.is_err()` takes &r): follow them one level
+    for bb in sorted(fn.reachable_blocks()):
+        for s in fn.blocks[bb]['stmts']:
+            if s['k'] == 'assign' and s['rv']['k'] == 'ref' and s['rv']['p']['l'] == local and not s['rv']['p']['pr'] and not s['p']['pr']:
+                aliases.add(s['p']['l'])
     for bb in sorted(fn.reachable_blocks()):
         b = fn.blocks[bb]
         for si, s in enumerate(b['stmts']):
             if s['k'] != 'assign':
                 continue
             rv = s['rv']
+            if rv['k'] == 'ref' and rv['p']['l'] == local:
+                continue
             from facts import rvalue_places
             for p in rvalue_places(rv):
                 if p['l'] == local:
@@ -71,7 +79,7 @@ def _consumers(fn, local, start_bb):
         t = b['term']
         if t['k'] in ('call', 'tailcall'):
             for i, a in enumerate(t['args']):
-                if op_local(a) == local:
+                if op_local(a) in aliases:
                     uses.append(('call', bb, i, t))
         if t['k'] == 'switch' and op_local(t['discr']) == local:
             uses.append(('switch', bb, None, t))
